@@ -129,7 +129,7 @@ def oracle(case, out):
             return "handshake failed"
         if d["verdict"] != 0:
             st = "; ".join("stream %d: got %d echo %d" % (i, s["got"], s["echo"]) for i, s in enumerate(d["streams"]))
-            return "hang: the session did not finish within 8 s (flags %d; %s)" % (d["flags"], st)
+            return "hang: the session made no progress for 8 s (flags %d; %s)" % (d["flags"], st)
         nuni, nbi = case[6], case[7]
         lens = case[14:14 + nuni + nbi]
         for i, s in enumerate(d["streams"]):
@@ -153,7 +153,7 @@ def oracle(case, out):
         return None
     if d["kind"] == 2:
         if d["verdict"] < 100:
-            return "close scenario: %s" % ("handshake failed" if d["verdict"] == 1 else "did not finish within 8 s")
+            return "close scenario: %s" % ("handshake failed" if d["verdict"] == 1 else "made no progress for 8 s")
         hung = [SLOT_NAMES.get(i, str(i)) for i, s in d["slots"] if s == 0]
         if hung:
             return "after %s: still pending (left hanging): %s" % (gen_c16.describe(case), ", ".join(hung))
